@@ -205,6 +205,107 @@ def render(case, name):
     return b + a
 
 
+# ---- pipeline group: from source text (real syn AST, parser from MIR) through reconcile to the generated text -------------
+P_KINDS = {
+    "struct": "pub struct Payment%s { pub v: u32 }",
+    "unit_enum": "pub enum Payment%s { FirstCase, second_case }",
+    "alg_enum": "#[serde(tag = \"t\", content = \"c\")]\npub enum Payment%s { FirstCase, SecondCase(u32) }",
+    "alias": "pub type Payment%s = Vec<u32>;",
+    "struct_as": "#[typeshare(serialized_as = \"String\")]\npub struct Payment%s { pub v: u32 }",
+    "enum_as": "#[typeshare(serialized_as = \"String\")]\npub enum Payment%s { FirstCase, SecondCase }",
+    "tuple_struct": "pub struct Payment%s(String);",
+}
+P_ATTRS = {"none": "", "rename": "#[serde(rename = \"NewName\")]\n", "rename_all": "#[serde(rename_all = \"camelCase\")]\n",
+           "rename_all_snake": "#[serde(rename_all = \"snake_case\")]\n", "both": "#[serde(rename = \"NewName\", rename_all = \"kebab-case\")]\n"}
+_PIDC = r"(?:[\w]|%s)" % extract.PUA_CLASS
+P_DEFINED = {
+    "typescript": r"^export (?:interface|type|enum|const) (%s+)" % _PIDC,
+    "kotlin": r"^(?:@\w+(?:\([^)\n]*\))?\s)*(?:data class|enum class|sealed class|class|object|typealias) (%s+)" % _PIDC,
+    "swift": r"^public (?:struct|class|enum|indirect enum|typealias) (%s+)" % _PIDC,
+    "scala": r"^\s*(?:case class|sealed trait|type|class) (%s+)" % _PIDC,
+    "go": r"^type (%s+)[ \[]" % _PIDC,
+    "python": r"^(?:class (%s+)\(|(?=[A-Z])(%s+)(?:: \w+)? = )" % (_PIDC, _PIDC),
+}
+
+
+def pipeline_src(bkind, attrs, suffix="Xq"):
+    item = P_KINDS[bkind] % suffix
+    if bkind in ("alias",) and attrs != "none":
+        return None     # serde attributes do not apply to `type` items
+    return "#[typeshare]\n%s%s\n#[typeshare]\npub struct Holder { pub r: Payment%s, pub rs: Vec<Payment%s> }\n" % (P_ATTRS[attrs], item, suffix, suffix)
+
+
+def case_pipeline(case):
+    lang, bkind, attrs = case
+    from vlib.mirsym import synast, pharness
+    P = prog()
+    I = new_interp(P)
+    res = {"paths": 0, "violations": [], "case": list(case)}
+    src = pipeline_src(bkind, attrs, "Xq").replace("PaymentXq", "PLACEB")
+    sym = z3.BitVec("b", 32)
+
+    def entry(I):
+        I.assume(z3.And(z3.UGE(sym, 97), z3.ULE(sym, 122)))
+        f = synast.parse_source(P, src)
+        synast.plant(f, {"PLACEB": [ord(c) for c in "Payment"] + [sym]})
+        r = pharness.run_visitor(I, f)
+        if r.variant == 0:
+            raise Unsupported("vacuity: nothing parsed")
+        pd = bharness.reconcile_single(I, r.fields[0])
+        L = P.layout
+        errs = pd.fields[L.structs["ParsedData"].index("errors")].items
+        if errs:
+            return None
+        ok, w, _ = bharness.generate(I, lang, pd)
+        return (ok, w)
+
+    for kind, out, pc in I.explore(entry, max_paths=300):
+        res["paths"] += 1
+        if kind == "panic" or out is None or not out[0]:
+            continue      # rejected with an error / panic: other properties
+        sk = extract.Skel(out[1].chars)
+        defs = []
+        for m in re.finditer(P_DEFINED[lang], sk.text, re.M):
+            g = m.lastindex
+            defs.append((m.start(g), m.end(g)))
+        fs = extract.struct_fields(lang, sk, "Holder")
+        if not fs:
+            raise Unsupported("vacuity: Holder's fields not found in the %s output" % lang)
+        f0 = [f for f in fs if sk.str(f.ident).lower() in ("r", "`r`")]
+        if not f0:
+            raise Unsupported("vacuity: field r not found")
+        ref = f0[0].type
+        conds = [seq_eq(I, sk.terms(ref), sk.terms(d)) for d in defs]
+        if any(c is True for c in conds):
+            continue
+        cs = [c for c in conds if c is not False]
+        m = I.sat_model(z3.Not(z3.Or(cs)) if cs else z3.BoolVal(True))
+        if m is not None:
+            ev = lambda sp: "".join(chr(c) if isinstance(c, int) else chr(m.eval(c, model_completion=True).as_long()) for c in sk.terms(sp))
+            res["violations"].append({"kind": "name-mismatch", "role": "pipeline", "reference": ev(ref), "defined": [ev(d) for d in defs], "suffix": "X" + chr(m.eval(sym, model_completion=True).as_long())})
+    return finish_case(I, res)
+
+
+def native_pipeline(nat, case, v):
+    lang, bkind, attrs = case
+    src = pipeline_src(bkind, attrs, v.get("suffix", "Xq"))
+    cfg = dict(bharness.DEFAULT_CFG.get(lang, {}))
+    real = nat.ask({"op": "generate", "lang": lang, "files": [{"source": src}], "config": cfg})
+    out = real.get("out", {}).get("", None)
+    if out is None:
+        return None, str(real)[:200], src, cfg
+    sk = extract.Skel([ord(c) for c in out])
+    defs = [m.group(m.lastindex) for m in re.finditer(P_DEFINED[lang], sk.text, re.M)]
+    fs = extract.struct_fields(lang, sk, "Holder") or []
+    f0 = [f for f in fs if sk.str(f.ident).lower() in ("r", "`r`")]
+    if not f0:
+        return None, "field r not found in real output", src, cfg
+    ref = sk.str(f0[0].type)
+    if ref not in defs:
+        return True, "%s: `%s`: Holder.r refers to `%s` but the output defines %s" % (lang, src.replace("\n", " "), ref, defs), src, cfg
+    return False, "real output defines %s" % ref, src, cfg
+
+
 def run(rep, tier, only=None):
     P = prog()
     nat = Replayer()
@@ -266,11 +367,37 @@ def run(rep, tier, only=None):
                               {"source": src, "lang": case[0], "config": cfg, "lines": [v["line_a"], v["line_b"]]})
             else:
                 rep.inconc("engine mismatch %s: %s; real output %r" % (case, v, out[:400]))
+    pcases = [(l, bk, at) for l in LANGS for bk in P_KINDS for at in P_ATTRS if pipeline_src(bk, at) is not None]
+    rep.bounds["pipeline"] = "source text -> parser (MIR) -> reconcile -> back end: referenced item kinds %s x container attributes %s, name `Payment` + a symbolic letter; the reference in another struct's field must be a defined name" % (sorted(P_KINDS), sorted(P_ATTRS))
+    rep.harnesses["pipeline"] = len(pcases)
+    for st, case, r in pmap(("checks.c09", "case_pipeline"), pcases):
+        rep.obligations += 1
+        if st != "ok":
+            rep.inconc("pipeline %s: %s" % (case, r)); continue
+        account(rep, r); rep.discharged += 1
+        for v in r["violations"][:1]:
+            bk = {"struct_as": "alias", "enum_as": "alias", "tuple_struct": "alias"}.get(case[1], case[1])
+            sig = {"lang": case[0], "b_kind": bk, "renamed": case[2] in ("rename", "both"), "position": "field", "kind": "name-mismatch", "role": "pipeline", "source_kind": case[1], "attrs": case[2]}
+            ok, why, src, cfg = native_pipeline(nat, case, v)
+            rep.validated += 1
+            if ok:
+                rep.violation(sig, why, {"source": src, "lang": case[0], "config": cfg, "pipeline": list(case), "suffix": v.get("suffix", "Xq")})
+            elif ok is None:
+                rep.inconc("replay failed for pipeline %s: %s" % (case, why))
+            else:
+                rep.inconc("engine mismatch pipeline %s: %s; %s" % (case, v, why))
     nat.close()
     rep.extra["explore_s"] = round(time.time() - t0, 1)
 
 
 def replay(case):
+    if case["case"].get("pipeline"):
+        nat = Replayer()
+        c = case["case"]
+        ok, why, _, _ = native_pipeline(nat, tuple(c["pipeline"]), {"suffix": c.get("suffix", "Xq")})
+        nat.close()
+        print(why)
+        return 1 if ok else 0
     c = case["case"]
     rep = Replayer()
     r = rep.ask({"op": "generate", "lang": c["lang"], "files": [{"source": c["source"]}], "config": c.get("config", {})})
